@@ -555,56 +555,131 @@ func runFamily(c *vh.Ctx) {
 
 // ---- Derive().Build() ----
 
-func runDerive(c *vh.Ctx, base *hsms.DataMessage) {
+// deriveStep is one builder call; kind: 0 stream 1 function 2 wait 3 item 4 sid 5 sys 6 id
+type deriveStep struct {
+	kind   int
+	v      byte
+	w      bool
+	sid    uint16
+	sb     [4]byte
+	id     uint32
+	item   secs2.Item
+	itemOK bool
+}
+
+func (st deriveStep) String() string {
+	switch st.kind {
+	case 0:
+		return fmt.Sprintf("stream:%d", st.v)
+	case 1:
+		return fmt.Sprintf("fn:%d", st.v)
+	case 2:
+		return "w:" + vh.B01(st.w)
+	case 3:
+		if !st.itemOK {
+			return "item:E:-"
+		}
+		return "item:O:" + fr.Hex(st.item.ToBytes())
+	case 4:
+		return fmt.Sprintf("sid:%d", st.sid)
+	case 5:
+		return fmt.Sprintf("sys:%d,%d,%d,%d", st.sb[0], st.sb[1], st.sb[2], st.sb[3])
+	default:
+		return fmt.Sprintf("id:%d", st.id)
+	}
+}
+
+// randStep draws one builder call; invalid arguments (stream 128..255, errored item, a W-bit /
+// function pair the constructor rejects) are as likely as valid ones.
+func randStep(c *vh.Ctx, kind int) deriveStep {
 	r := c.Rng
-	b := base.Derive()
-	n := r.Intn(5)
-	names := make([]string, 0, n)
-	stampsOnly := true
-	for i := 0; i < n; i++ {
-		switch r.Intn(8) {
+	st := deriveStep{kind: kind}
+	switch kind {
+	case 0:
+		switch r.Intn(4) {
 		case 0:
-			v := byte(r.Intn(256))
-			if r.Intn(2) == 0 {
-				v &= 0x7f
-			}
-			b.WithStream(v)
-			names = append(names, fmt.Sprintf("stream:%d", v))
-			stampsOnly = false
+			st.v = []byte{128, 129, 200, 254, 255}[r.Intn(5)]
 		case 1:
-			v := byte(r.Intn(256))
-			b.WithFunction(v)
-			names = append(names, fmt.Sprintf("fn:%d", v))
-			stampsOnly = false
+			st.v = byte(128 + r.Intn(128))
 		case 2:
-			w := r.Intn(2) == 0
-			b.WithWaitBit(w)
-			names = append(names, "w:"+vh.B01(w))
-			stampsOnly = false
-		case 3:
-			switch r.Intn(3) {
-			case 0:
-				b.WithItem(fr.ErrItem(r))
-				names = append(names, "item:E:-")
-			default:
-				it := fr.RandItem(r, 2)
-				b.WithItem(it)
-				names = append(names, "item:O:"+fr.Hex(it.ToBytes()))
-			}
-			stampsOnly = false
-		case 4, 5:
-			v := uint16(r.Intn(65536))
-			b.WithSessionID(v)
-			names = append(names, fmt.Sprintf("sid:%d", v))
-		case 6:
-			var sb [4]byte
-			binary.BigEndian.PutUint32(sb[:], r.Uint32())
-			b.WithSystemBytes(sb)
-			names = append(names, fmt.Sprintf("sys:%d,%d,%d,%d", sb[0], sb[1], sb[2], sb[3]))
+			st.v = []byte{0, 1, 126, 127}[r.Intn(4)]
 		default:
-			v := r.Uint32()
-			b.WithID(v)
-			names = append(names, fmt.Sprintf("id:%d", v))
+			st.v = byte(r.Intn(128))
+		}
+	case 1:
+		st.v = byte(r.Intn(256))
+		if r.Intn(3) == 0 {
+			st.v = []byte{0, 1, 2, 254, 255}[r.Intn(5)]
+		}
+	case 2:
+		st.w = r.Intn(2) == 0
+	case 3:
+		if r.Intn(2) == 0 {
+			st.item = fr.ErrItem(r)
+		} else {
+			st.item, st.itemOK = fr.RandItem(r, 2), true
+		}
+	case 4:
+		st.sid = uint16(r.Intn(65536))
+	case 5:
+		binary.BigEndian.PutUint32(st.sb[:], r.Uint32())
+	default:
+		st.id = r.Uint32()
+	}
+	return st
+}
+
+func applyStep(b *hsms.DataMessageBuilder, st deriveStep) {
+	switch st.kind {
+	case 0:
+		b.WithStream(st.v)
+	case 1:
+		b.WithFunction(st.v)
+	case 2:
+		b.WithWaitBit(st.w)
+	case 3:
+		b.WithItem(st.item)
+	case 4:
+		b.WithSessionID(st.sid)
+	case 5:
+		b.WithSystemBytes(st.sb)
+	default:
+		b.WithID(st.id)
+	}
+}
+
+// runDeriveSteps runs base.Derive() + steps + Build(), writes the B line for the model and judges
+// the outcome against the property itself: Build fails exactly when the FINAL requested fields
+// are an invalid combination, with the documented error in the documented order (stream, item,
+// W-bit on an even function); a successful Build carries exactly the requested fields.
+func runDeriveSteps(c *vh.Ctx, base *hsms.DataMessage, steps []deriveStep, tag string) {
+	b := base.Derive()
+	names := make([]string, len(steps))
+	// what was requested: the source message's fields, overridden by the last call of each kind
+	stream, fn, w, sid, sb := base.Stream(), base.Function(), base.WaitBit(), base.SessionID(), base.SystemBytes()
+	body, itemOK, stampsOnly := base.AppendBodyTo(nil), true, true
+	for i, st := range steps {
+		names[i] = st.String()
+		applyStep(b, st)
+		switch st.kind {
+		case 0:
+			stream, stampsOnly = st.v, false
+		case 1:
+			fn, stampsOnly = st.v, false
+		case 2:
+			w, stampsOnly = st.w, false
+		case 3:
+			itemOK, stampsOnly = st.itemOK, false
+			body = nil
+			if st.itemOK {
+				body = st.item.ToBytes()
+			}
+		case 4:
+			sid = st.sid
+		case 5:
+			sb = st.sb
+		default:
+			binary.BigEndian.PutUint32(sb[:], st.id)
 		}
 	}
 	m, err := b.Build()
@@ -615,11 +690,138 @@ func runDerive(c *vh.Ctx, base *hsms.DataMessage) {
 	}
 	line := fmt.Sprintf("B %s 1 %d %s | %s", fr.Hex(before), len(names), strings.Join(names, " "), res)
 	c.Case(line, line, true)
-	c.Count("B/" + strings.Fields(res)[0])
-	if stampsOnly && err == nil {
-		after := m.ToBytes()
+	c.Count("B/" + tag + "/" + strings.Fields(res)[0] + fr.ConsErr(err))
+
+	want := "ok"
+	switch {
+	case stream > 127:
+		want = "S"
+	case !itemOK:
+		want = "I"
+	case w && fn%2 == 0:
+		want = "R"
+	}
+	if got := fr.ConsErr(err); got != want {
+		c.Fail(fmt.Sprintf("Derive()...Build(): outcome %s, but the requested fields (stream %d, function %d, W %v, item ok %v) call for %s (ok / S stream / I item / R W-bit on even function)",
+			got, stream, fn, w, itemOK, want), line)
+		return
+	}
+	if err != nil {
+		return
+	}
+	after := m.ToBytes()
+	if m.Stream() != stream || m.Function() != fn || m.WaitBit() != w || m.SessionID() != sid || m.SystemBytes() != sb || !bytes.Equal(m.AppendBodyTo(nil), body) {
+		c.Fail(fmt.Sprintf("Derive()...Build(): the built message does not carry the requested stream %d / function %d / W %v / session %d / system bytes %v / body", stream, fn, w, sid, sb), line)
+	}
+	eh := e37Header(dataIn{stream: stream, fn: fn, w: w, sid: sid, sb: sb})
+	if !bytes.Equal(after[4:14], eh[:]) {
+		c.Fail("Derive()...Build(): header of the built frame differs from the E37 layout of the requested fields", line)
+	}
+	if stampsOnly {
 		if len(after) != len(before) || !bytes.Equal(after[6:10], before[6:10]) || !bytes.Equal(after[14:], before[14:]) || !bytes.Equal(after[:4], before[:4]) {
 			c.Fail("Derive().Build() with only session-id/system-bytes overrides changed other bytes", line)
+		}
+	}
+}
+
+// deriveBase: a constructed message, or one decoded from a frame (possibly carrying a W-bit /
+// function pair no constructor would have produced: decoding does not validate).
+func deriveBase(c *vh.Ctx, made []*hsms.DataMessage) (*hsms.DataMessage, string) {
+	r := c.Rng
+	switch r.Intn(3) {
+	case 0:
+		if len(made) > 0 {
+			return made[r.Intn(len(made))], "constructed"
+		}
+		fallthrough
+	case 1:
+		m, _ := freshBase(c, true)
+		return m, "decoded"
+	default:
+		m, _ := freshBase(c, false)
+		f := m.ToBytes()
+		f[6] = byte(r.Intn(256)) // any W-bit / stream
+		f[7] = byte(r.Intn(256)) // any function
+		d, err := hsms.DecodeHSMSMessage(f)
+		if err != nil {
+			panic(err)
+		}
+		dm, _ := d.ToDataMessage()
+		return dm, "decoded-any-header"
+	}
+}
+
+func runDerive(c *vh.Ctx, made []*hsms.DataMessage) {
+	r := c.Rng
+	base, tag := deriveBase(c, made)
+	n := r.Intn(6)
+	steps := make([]deriveStep, n)
+	for i := range steps {
+		steps[i] = randStep(c, r.Intn(7))
+	}
+	runDeriveSteps(c, base, steps, tag)
+}
+
+// deriveCorpus: every validation clause violated at every position of a chain, followed or not
+// by a call that repairs it; every stream value through WithStream on both W settings.
+func deriveCorpus(c *vh.Ctx) {
+	ok := func(kind int) deriveStep {
+		st := deriveStep{kind: kind, v: 5, sid: 0x1234, sb: [4]byte{1, 2, 3, 4}, id: 0x0a0b0c0d}
+		if kind == 3 {
+			st.item, st.itemOK = secs2.A("ok"), true
+		}
+		if kind == 1 {
+			st.v = 7
+		}
+		return st
+	}
+	bad := []deriveStep{
+		{kind: 0, v: 128}, {kind: 0, v: 200}, {kind: 0, v: 255},
+		{kind: 3, item: secs2.B(300)},
+		{kind: 1, v: 4}, // even function under a W-bit base
+	}
+	for _, decoded := range []bool{false, true} {
+		for _, w := range []bool{false, true} {
+			mk := func() *hsms.DataMessage {
+				m, err := hsms.NewDataMessage(9, 3, w, 0x8001, [4]byte{0, 0, 1, 0}, secs2.U1(1, 2))
+				if err != nil {
+					panic(err)
+				}
+				if decoded {
+					d, _ := hsms.DecodeHSMSMessage(m.ToBytes())
+					m, _ = d.ToDataMessage()
+				}
+				return m
+			}
+			tag := fmt.Sprintf("corpus/decoded=%v", decoded)
+			for s := 0; s < 256; s++ {
+				runDeriveSteps(c, mk(), []deriveStep{{kind: 0, v: byte(s)}}, tag)
+			}
+			fillers := []int{4, 6, 2, 5}
+			for _, bd := range bad {
+				for pos := 0; pos < 4; pos++ {
+					steps := make([]deriveStep, 0, 5)
+					for i := 0; i < 4; i++ {
+						if i == pos {
+							steps = append(steps, bd)
+						} else {
+							st := ok(fillers[i])
+							if st.kind == 2 {
+								st.w = w
+							}
+							steps = append(steps, st)
+						}
+					}
+					runDeriveSteps(c, mk(), steps, tag)
+					// ... and repaired by a later call of the same kind
+					runDeriveSteps(c, mk(), append(append([]deriveStep(nil), steps...), ok(bd.kind)), tag)
+				}
+			}
+			// W-bit set on an even function through WithWaitBit / WithFunction in both orders
+			runDeriveSteps(c, mk(), []deriveStep{{kind: 1, v: 2}, {kind: 2, w: true}}, tag)
+			runDeriveSteps(c, mk(), []deriveStep{{kind: 2, w: true}, {kind: 1, v: 2}}, tag)
+			runDeriveSteps(c, mk(), []deriveStep{{kind: 2, w: true}, {kind: 1, v: 2}, {kind: 2, w: false}}, tag)
+			runDeriveSteps(c, mk(), []deriveStep{{kind: 0, v: 255}, {kind: 3, item: secs2.B(300)}, {kind: 2, w: true}, {kind: 1, v: 2}}, tag)
 		}
 	}
 }
@@ -731,6 +933,8 @@ func main() {
 		}
 	}
 
+	deriveCorpus(c)
+
 	// ---- random ----
 	for i := 0; i < c.N; i++ {
 		switch k := r.Intn(20); {
@@ -761,9 +965,7 @@ func main() {
 				runStampCtrl(c, base)
 			}
 		case k < 17:
-			if len(made) > 0 {
-				runDerive(c, made[r.Intn(len(made))])
-			}
+			runDerive(c, made)
 		case k < 19:
 			runFamily(c)
 		default:
